@@ -422,24 +422,27 @@ func (s *sim) execTx(where string, ctxID []byte, header *blockchain.BlockHeader,
 func scan(ops []Op) opStats {
 	var st opStats
 	seen := map[int]bool{}
-	restored := false
+	stale := map[int]bool{}
 	for _, op := range ops {
 		switch op.K {
 		case "set", "del", "get", "has":
 			if op.H == 1 {
-				if restored && seen[op.S] {
+				if stale[op.S] {
 					st.retainedAfterRestore++
 				}
 				seen[op.S] = true
 			}
-		case "rest":
-			st.restores++
-			restored = true
+		case "rest", "srest":
+			if op.K == "rest" {
+				st.restores++
+			} else {
+				st.storeRestores++
+			}
+			for s := range seen {
+				stale[s] = true
+			}
 		case "ssnap":
 			seen[op.S] = true
-		case "srest":
-			st.storeRestores++
-			restored = true
 		}
 	}
 	return st
